@@ -226,67 +226,7 @@ func init() {
 		if n < 2 {
 			r.Errorf("C15.7: only %d heap ID encodings found in the insert paths", n)
 		}
-		// the width test itself: a value fits N bits iff it is < 1<<N (iff not >= 1<<N); <= and > against the power of two
-		// admit the offset 1<<N, which is stored as 0
-		k := 0
-		for _, g := range c.LibFuncs() {
-			if shortPkg(fnPkgPath(g)) != "structures" || g.Signature.Results().Len() != 1 {
-				continue
-			}
-			if b, isB := g.Signature.Results().At(0).Type().Underlying().(*types.Basic); !isB || b.Kind() != types.Bool {
-				continue
-			}
-			reads := false
-			instrs(g, func(y ssa.Instruction) {
-				if u, ok := y.(*ssa.UnOp); ok && u.Op == token.MUL {
-					if key, _ := fieldLoadKey(u); strings.HasSuffix(key, ".HeapOffsetSize") {
-						reads = true
-					}
-				}
-			})
-			if !reads {
-				continue
-			}
-			instrs(g, func(y ssa.Instruction) {
-				bo, ok := y.(*ssa.BinOp)
-				if !ok {
-					return
-				}
-				isPow := func(v ssa.Value) bool {
-					sh, ok := stripConv(v).(*ssa.BinOp)
-					if !ok || sh.Op != token.SHL {
-						return false
-					}
-					one, ok := constInt(sh.X)
-					return ok && one == 1
-				}
-				op := bo.Op
-				switch {
-				case isPow(bo.Y):
-				case isPow(bo.X):
-					switch op {
-					case token.LSS:
-						op = token.GTR
-					case token.GTR:
-						op = token.LSS
-					case token.LEQ:
-						op = token.GEQ
-					case token.GEQ:
-						op = token.LEQ
-					}
-				default:
-					return
-				}
-				if op != token.LSS && op != token.GTR && op != token.LEQ && op != token.GEQ {
-					return
-				}
-				k++
-				r.Check(op == token.LSS || op == token.GEQ, "C15.7", c.Name(g)+"#fits-means-below-the-power-of-two", c.InstrPos(bo), "an offset fits N bits iff offset < 1<<N; a test with <= or > admits 1<<N itself, which the ID stores as 0 (the ID of the first object)")
-			})
-		}
-		if k == 0 {
-			r.Undec("C15.7", "structures#fits-means-below-the-power-of-two", "", "no comparison against 1<<bits found in a width test")
-		}
+		heapWidthTestRule(c, r, "C15.7")
 	})
 }
 
@@ -344,4 +284,70 @@ func init() {
 			r.Undec("C15.8", "structures#length-field-wide-enough", "", "no function builds a heap header with both fields")
 		}
 	})
+}
+
+// heapWidthTestRule: the width test of the heap ID's offset field: a value fits N bits iff it is < 1<<N (iff not >= 1<<N);
+// <= and > against the power of two admit the offset 1<<N, which is stored as 0.
+func heapWidthTestRule(c *Ctx, r *Result, rule string) {
+	// the width test itself: a value fits N bits iff it is < 1<<N (iff not >= 1<<N); <= and > against the power of two
+	// admit the offset 1<<N, which is stored as 0
+	k := 0
+	for _, g := range c.LibFuncs() {
+		if shortPkg(fnPkgPath(g)) != "structures" || g.Signature.Results().Len() != 1 {
+			continue
+		}
+		if b, isB := g.Signature.Results().At(0).Type().Underlying().(*types.Basic); !isB || b.Kind() != types.Bool {
+			continue
+		}
+		reads := false
+		instrs(g, func(y ssa.Instruction) {
+			if u, ok := y.(*ssa.UnOp); ok && u.Op == token.MUL {
+				if key, _ := fieldLoadKey(u); strings.HasSuffix(key, ".HeapOffsetSize") {
+					reads = true
+				}
+			}
+		})
+		if !reads {
+			continue
+		}
+		instrs(g, func(y ssa.Instruction) {
+			bo, ok := y.(*ssa.BinOp)
+			if !ok {
+				return
+			}
+			isPow := func(v ssa.Value) bool {
+				sh, ok := stripConv(v).(*ssa.BinOp)
+				if !ok || sh.Op != token.SHL {
+					return false
+				}
+				one, ok := constInt(sh.X)
+				return ok && one == 1
+			}
+			op := bo.Op
+			switch {
+			case isPow(bo.Y):
+			case isPow(bo.X):
+				switch op {
+				case token.LSS:
+					op = token.GTR
+				case token.GTR:
+					op = token.LSS
+				case token.LEQ:
+					op = token.GEQ
+				case token.GEQ:
+					op = token.LEQ
+				}
+			default:
+				return
+			}
+			if op != token.LSS && op != token.GTR && op != token.LEQ && op != token.GEQ {
+				return
+			}
+			k++
+			r.Check(op == token.LSS || op == token.GEQ, rule, c.Name(g)+"#fits-means-below-the-power-of-two", c.InstrPos(bo), "an offset fits N bits iff offset < 1<<N; a test with <= or > admits 1<<N itself, which the ID stores as 0 (the ID of the first object)")
+		})
+	}
+	if k == 0 {
+		r.Undec(rule, "structures#fits-means-below-the-power-of-two", "", "no comparison against 1<<bits found in a width test")
+	}
 }
